@@ -49,6 +49,9 @@ pub enum Op {
     Sweep,
     #[serde(rename = "check")]
     Check,
+    /// debugging aid: record get_mapping() of a guest block as a Note
+    #[serde(rename = "map")]
+    Map { gb: u64 },
     #[serde(rename = "reopen")]
     Reopen {
         #[serde(default)]
@@ -418,6 +421,8 @@ impl Runner {
                 "rbn": geom.rbn(), "epb": geom.bs()/8, "rpb": (geom.bs()*8) >> geom.ro,
                 "bsz": geom.bs(), "vszb": geom.vsize >> 9});
             s.push(json!({"e":"Reset","name": sc.name, "g": gj, "devs": devs, "init": toks, "btok": btok, "maxb": 0,
+                "src": match &sc.images[0] { ImageSrc::Format{..} => "format", _ => "build" },
+                "par": if sc.steps.iter().any(|o| matches!(o, Op::Par{..})) {1} else {0},
                 "kind": kinds, "comp": comp, "back": if n > 1 {1} else {0},
                 "punch_unsupported": if sc.punch_unsupported {1} else {0}}));
         }
@@ -460,7 +465,7 @@ impl Runner {
         let nfiles = self.world.borrow().files.len();
         let mut devs: Vec<Qcow2Dev<SimFile>> = Vec::new();
         self.ev(json!({"e":"Open","bsb":bsb,"ro": if ro {1} else {0},
-            "l2": p.l2.map(|x| json!([x.0, x.1])), "rb": p.rb.map(|x| json!([x.0, x.1]))}));
+            "l2": p.l2.map(|x| json!([x.0, x.1])).unwrap_or(json!([0, 0])), "rb": p.rb.map(|x| json!([x.0, x.1])).unwrap_or(json!([0, 0]))}));
         for i in 0..nfiles {
             let mut params = mk_params(bsb, p, ro || i > 0);
             if i > 0 {
@@ -764,11 +769,11 @@ impl Runner {
             match oc {
                 Outcome::AllDone => {}
                 Outcome::Stuck(t) => {
-                    sink.borrow_mut().push(json!({"e":"Stuck","tasks":t,"why":"deadlock"}));
+                    sink.borrow_mut().push(json!({"e":"Stuck","tasks":t,"why":"deadlock","msg":"deadlock"}));
                     self.stuck = true;
                 }
                 Outcome::Budget(t) => {
-                    sink.borrow_mut().push(json!({"e":"Stuck","tasks":t,"why":"budget"}));
+                    sink.borrow_mut().push(json!({"e":"Stuck","tasks":t,"why":"budget","msg":"budget"}));
                     self.stuck = true;
                 }
             }
@@ -844,6 +849,15 @@ impl Runner {
                     }
                     if let Err(e) = self.open(&p, self.geom.bsb, *ro) {
                         self.outcome.push(e);
+                    }
+                }
+                Op::Map { gb } => {
+                    if let Some(dev) = self.dev.take() {
+                        let w = self.world.clone();
+                        let off = gb << self.geom.bsb;
+                        let m = block_on(&w, 0, async { dev.get_mapping(off).await });
+                        self.ev(json!({"e":"Note","msg":format!("map gb={gb}: {m:?}")}));
+                        self.dev = Some(dev);
                     }
                 }
                 Op::FailNext { nth, partial } => {
